@@ -485,4 +485,6 @@ def r_resources_assert_nothing(ctx):
 
 RULES = [r_resources_assert_nothing, r_pairwise, r_busy_bind, r_select_workers, r_neg_point, r_cumul, r_work_amount,
          lambda ctx: task_rules.r_drain(ctx, only=("workers", "tasks")), r_reported_assignment, r_declared_reaches_solver,
+         # `busy >= 0` is the reporters' (and R-VIEW-SYMMETRY's) test for 'assigned': every task class asserts start >= 0 (R-TASK-OBLIG)
+         lambda ctx: task_rules.r_task_oblig(ctx),
          lambda ctx: __import__("rules.validation", fromlist=["x"]).r_dup_name(ctx, only=('add_resource_worker', 'add_resource_select_workers', 'add_resource_cumulative_worker'))]
